@@ -1,7 +1,7 @@
 #!/bin/bash
 # usage: pipeline_scratch.sh <PROP>...   (after the sub-agent of <PROP> has finished)
 # confirm m9 and m10 in the agent's worktree, collect into /verif/seeded, then privately pre-evaluate in a scratch copy
-for P in "$@"; do for M in m9 m10; do
+for P in "$@"; do for M in ${MS:-m9 m10}; do
   [ -f /tmp/mut/$P/mutants/$M/patch.diff ] || { echo "$P-$M: missing"; continue; }
   /verif/tools/confirm_mutant.sh $P $M > /dev/null 2>&1
   echo "$P-$M confirm: $(cat /tmp/mut/$P/mutants/$M/confirm.json)"
